@@ -81,6 +81,40 @@ BUG_CALLEES = ["buggy::Bug::new", "buggy::Bug::new_with_source", "buggy::BugExt:
 
 DEBUG_ONLY_MACROS = ("debug_assert", "debug_assert_eq", "debug_assert_ne")
 
+# Allocation requests whose element count is an argument: `capacity overflow` panics when
+# count * size_of::<T>() exceeds isize::MAX. (callee suffix, index of the count argument)
+ALLOC_CALLEES = [
+    ("vec::Vec::with_capacity", 0), ("vec::Vec::with_capacity_in", 0), ("vec::Vec::reserve", 1), ("vec::Vec::reserve_exact", 1),
+    ("vec::Vec::resize", 1), ("vec::Vec::resize_with", 1), ("vec::from_elem", 1), ("string::String::with_capacity", 0),
+    ("string::String::reserve", 1), ("vec_deque::VecDeque::with_capacity", 0), ("vec_deque::VecDeque::reserve", 1),
+    ("slice::repeat", 1), ("str::repeat", 1), ("boxed::Box::new_uninit_slice", 0), ("boxed::Box::new_zeroed_slice", 0),
+]
+# a count that is the size of something that already exists (or a literal) cannot overflow
+SIZE_OF_EXISTING = ("call:len", "call:size_hint", "call:count", "call:capacity", "call:serialized_size", "call:encoded_len")
+
+
+def alloc_site(fn, call):
+    """('hard', 'alloc-size[callee]') when the call asks for an allocation whose element count is neither a
+    constant nor the length of an existing object."""
+    p = call.path
+    if not p:
+        return None
+    for pat, idx in ALLOC_CALLEES:
+        if path_match(p, pat):
+            if idx >= len(call.args):
+                return None
+            a = call.args[idx]
+            if a.const is not None:
+                return None
+            og = fn.origins(a, through_calls=("Into::into", "From::from", "cmp::min", "Ord::min", "usize::min", "saturating_sub", "Try::branch",
+                                              "TryFrom::try_from", "TryInto::try_into"))
+            if any(t in og for t in SIZE_OF_EXISTING) or "call:min" in og:
+                return None
+            if og <= {"const"}:
+                return None
+            return ("hard", "alloc-size[%s]" % call.name)
+    return None
+
 
 def callee_kind(call):
     """Return (class, kind) if this call is a panic source, else None."""
@@ -243,7 +277,7 @@ def sites_in(fn):
             else:
                 out.append(Site(fn, "hard", k, a["span"]["line"], macs))
     for c in fn.calls:
-        ck = callee_kind(c)
+        ck = callee_kind(c) or alloc_site(fn, c)
         if ck:
             out.append(Site(fn, ck[0], ck[1], c.line, c.macs))
     return out
